@@ -1,5 +1,6 @@
 """C07 - lineage is invariant under layout, comments and letter case.  Layout does not exist in the abstract program: the
 refinement mapping text -> program is many-to-one and the specification's answer depends on the program only (Stmt.tla)."""
+from harness import REPO as _REPO
 import random
 
 from .. import core, stmt_variants, tlc
@@ -76,8 +77,8 @@ def _corpus_chunk(items):
     import warnings
     os.chdir("/tmp")
     warnings.simplefilter("ignore")
-    if "/repo" not in sys.path:
-        sys.path.insert(0, "/repo")
+    if _REPO not in sys.path:
+        sys.path.insert(0, _REPO)
     from sqlfluff.core import Lexer
     from .. import drive, stmt_drv
     out = []
